@@ -355,6 +355,14 @@ def walk_emit(ctx, cls, layout, only_p1=False):
 
 
 class SilentInterp(EvInterp):
+    def on_method(self, call, name, recv, args, kwargs, st):
+        # a method called on the emitter from another object's method (the context-manager class): dispatched on the emitter's class
+        if recv == T('self') and self.fi_stack and self.fi_stack[-1].cls is not self.cls and len(self.fi_stack) < 6:
+            m_ = self.repo.lookup_method(self.cls, call.func.attr)
+            if m_ is not None:
+                return self.call_function(m_, args, kwargs, st, recv=recv)
+        return super().on_method(call, name, recv, args, kwargs, st) if hasattr(super(), 'on_method') else None
+
     def ev_Yield(self, e, st):
         me = T('self')
         return [(C(None), st.emit('yield-state', st.heap.get((me, 'is_silent'), T('unset'))))]
@@ -368,6 +376,52 @@ def walk_silent(ctx, cls):
     me = T('self')
     probs = []
     n = 0
+    # class-based form: silent() returns an instance of a repo class with __enter__ / __exit__ - constructor, __enter__ and __exit__ are walked in that order
+    rets_ = [r_.value for r_ in fi.returns() if r_.value is not None]
+    mgr = None
+    if not fi.yields() and len(rets_) == 1 and isinstance(rets_[0], ast.Call) and isinstance(rets_[0].func, ast.Name) and rets_[0].func.id in fi.module.classes:
+        mgr = fi.module.classes[rets_[0].func.id]
+    if mgr is not None and repo.lookup_method(mgr, '__enter__') is not None and repo.lookup_method(mgr, '__exit__') is not None:
+        init_, ent_, ex_ = (repo.lookup_method(mgr, m_) for m_ in ('__init__', '__enter__', '__exit__'))
+        ob = T('obj', C(0), T('mgr'))
+        simple_args = all(isinstance(a_, ast.Name) and a_.id == fi.params[0] for a_ in rets_[0].args) and not rets_[0].keywords
+        if not simple_args or init_ is None or len(init_.params) != 1 + len(rets_[0].args):
+            ctx.undecided('C19.P7', fi, 'silent() returns `%s`: construction of the context manager not recognised' % unparse(rets_[0])[:60])
+        else:
+            bad_, n_ = [], 0
+            for s0 in (C(False), C(True)):
+                I_ = SilentInterp(repo, cls)
+                I_.inline_depth = 4
+                for c_ in (cls, mgr):
+                    for m_ in c_.methods.values():
+                        I_.inline.add(m_.node)
+                heaps = [{(me, 'is_silent'): s0}]
+                for step, f_, extra in (('init', init_, [me] * len(rets_[0].args)), ('enter', ent_, []), ('exit', ex_, [C(None)] * 3)):
+                    nxt = []
+                    for h_ in heaps:
+                        env_ = {f_.params[0]: ob}
+                        for p_, a_ in zip(f_.params[1:], extra):
+                            env_[p_] = a_
+                        for kind, val, st in I_.run(f_, env=env_, heap=h_):
+                            if kind == 'raise':
+                                bad_.append('%s of the context manager raises' % step)
+                                continue
+                            n_ += 1
+                            if step == 'enter' and st.heap.get((me, 'is_silent')) != C(True):
+                                bad_.append('inside `with silent():` entered with is_silent=%s the flag is %s: dispatch is not silenced' % (show(s0), show(st.heap.get((me, 'is_silent')))))
+                            if step == 'exit' and st.heap.get((me, 'is_silent')) != s0:
+                                bad_.append('after `with silent():` entered with is_silent=%s the flag is %s, not the saved value' % (show(s0), show(st.heap.get((me, 'is_silent')))))
+                            if step == 'exit' and val not in (C(None), C(False)):
+                                bad_.append('__exit__ returns %s: exceptions raised in the silenced block are swallowed' % show(val)[:30]) if is_c(val) and val[1] else None
+                            nxt.append(dict(st.heap))
+                    heaps = nxt or heaps
+            if bad_:
+                for p_ in sorted(set(bad_)):
+                    ctx.violated('C19.P7', fi, p_, p_)
+            else:
+                ctx.holds('C19.P7', fi, 'silent() returns a context manager (%s) whose __enter__ sets is_silent to True and whose __exit__ restores the value read on entry, from both pre-states (%d paths)' % (mgr.name, n_), 'silent')
+        _flag_writers(ctx, repo, cls, fi, extra_allowed=set())
+        return
     for s0 in (C(False), C(True)):
         outs = SilentInterp(repo, cls).run(fi, env={fi.params[0]: me}, heap={(me, 'is_silent'): s0})
         ctx.analysed['paths'] += len(outs)
@@ -388,6 +442,10 @@ def walk_silent(ctx, cls):
             ctx.violated('C19.P7', fi, p, p)
     else:
         ctx.holds('C19.P7', fi, 'silent() sets is_silent to True for its body and restores the previous value, from both pre-states (%d paths)' % n, 'silent')
+    _flag_writers(ctx, repo, cls, fi)
+
+
+def _flag_writers(ctx, repo, cls, fi, extra_allowed=()):
     # who may write the flag: "calls nothing while silenced" holds over histories only if no other operation of the history alphabet (connect, unconnect, reset, emit)
     # rewrites it. Stores are allowed in the constructor, set_silent and silent(), and in private helpers reached from those only.
     allowed = {'__init__', 'set_silent', 'silent'}
